@@ -348,3 +348,67 @@ func cl2RefusalKeepsLock(p *core.Prog, rep *core.Report) {
 	}
 	rep.Check(len(bad) == 0, "CL2", "refusal-keeps-lock:"+core.FuncKey(cl), "a Close that refuses to run does not release the directory lock", p.Pos(cl.Pos()), strings.Join(sortedStr(bad), "; ")+": the instance stays usable while a second Open of the directory succeeds", true)
 }
+
+// ---- MG4: every scanned record is looked up ------------------------------------------------------------------------------
+//
+// Seed C06-L (round 6): `if len(logRecord.Value) == 0 { continue }` in front of the index lookup of Merge's scan loop -
+// "tombstones need no lookup". A live key whose value is empty (set members, Put(k, nil)) is dropped from the merged
+// files and from the hint: gone after the adopting restart.
+func (m *mergeCtx) mg4EveryRecordLookedUp() {
+	R := m.p.R
+	m.rep.Rule("MG4", "every scanned record is looked up: in Merge's scan loop no iteration gets from the read of a record back to the next read without passing the index lookup that decides its liveness; whether a record is live is decided by the index alone, never by what the record contains (an empty value is a legal live value)")
+	rw := m.rewriteCalls()
+	if len(rw) == 0 {
+		return
+	}
+	fn := rw[0].Parent()
+	var rd, get ssa.Instruction
+	for _, b := range fn.Blocks {
+		for _, in := range b.Instrs {
+			ci, ok := in.(ssa.CallInstruction)
+			if !ok {
+				continue
+			}
+			c := ci.Common().StaticCallee()
+			if c == nil {
+				continue
+			}
+			if c.Name() == "NextLogRecord" && core.RecvNamed(c) == R.DataReader {
+				rd = in
+			}
+			if core.RecvNamed(c) == R.ShardedIndex && c.Name() == "Get" {
+				get = in
+			}
+		}
+	}
+	if rd == nil || get == nil {
+		m.rep.Unk("MG4", "every-record-looked-up:"+core.FuncKey(fn), "the scan loop reads records and looks each one up", m.p.Pos(fn.Pos()), "reader call or index lookup not found beside the rewriting call")
+		return
+	}
+	// paths inside the innermost loop around the read only (the end-of-file exit leads on to the next file's reader)
+	var inner map[*ssa.BasicBlock]bool
+	for _, lp := range naturalLoops(fn) {
+		if lp.body[rd.Block()] && (inner == nil || len(lp.body) < len(inner)) {
+			inner = lp.body
+		}
+	}
+	skip := false
+	if rd.Block() != get.Block() && inner != nil {
+		seen := map[*ssa.BasicBlock]bool{}
+		work := append([]*ssa.BasicBlock{}, rd.Block().Succs...)
+		for len(work) > 0 {
+			x := work[len(work)-1]
+			work = work[:len(work)-1]
+			if !inner[x] || x == get.Block() || seen[x] {
+				continue
+			}
+			if x == rd.Block() {
+				skip = true
+				break
+			}
+			seen[x] = true
+			work = append(work, x.Succs...)
+		}
+	}
+	m.rep.Check(!skip, "MG4", "every-record-looked-up:"+core.FuncKey(fn), "no iteration of the scan loop skips the index lookup", m.p.InstrPos(get), "an iteration can go from the record read at "+m.p.InstrPos(rd)+" to the next read without the index lookup at "+m.p.InstrPos(get)+": a record is discarded because of what it contains, although the index may still point at it (a live key with an empty value is lost by the merge)", true)
+}
